@@ -1,11 +1,14 @@
 import Hgxv.Model.Wire
 import Hgxv.Model.C20
+import Hgxv.Model.C20Reads
 import Hgxv.Model.C20Cent
 /-! Line protocol for C20.  Labels are ranks (`Nat`), `srt = Wire.sortNats`.
   `load <nodes> <edges>`            -> `ok`            static hypergraph (`get_nodes()`, `get_edges()` order)
   `line s`                          -> `<line-graph edges i,j;..> <id table, one key per id>`
   `bip`                             -> `<vertex names> <edges a~b> <id table name=n<label> | name=e<l.l.l>>`
   `se <stub|btw|clo> s`             -> `rej` | `key=value,..`   s_betweenness / s_closeness
+  `rline s <len> <incident keys per node of the loaded hypergraph>` -> `rej` | `<vertices> <edges i,j;..>`   line_graph on the READINGS
+  `rse <cent> s <len> <incident keys per node>`                     -> `rej` | `key=value,..`   s_betweenness / s_closeness on the readings
   `sn <stub|btw|clo>`               -> `rej` | `n<label>=value,..`
   `tload <times> <edges>`           -> `ok`            temporal hypergraph (`get_edges()` order)
   `snaps`                           -> `<times> <nodes per snapshot> <edges per snapshot>`
@@ -55,6 +58,18 @@ def step (s : St) : List String → St × String
     let g := bipGraph sortNats s.H
     (s, showList "," "-" id g.verts ++ " " ++ showList "," "-" (fun (p : String × String) => p.1 ++ "~" ++ p.2) g.edges
         ++ " " ++ showList "," "-" (fun (p : String × Obj Nat) => p.1 ++ "=" ++ showObj p.2) (bipTable sortNats s.H))
+  | ["rline", k, len, incs] =>
+    match nat? len, natsss? incs with
+    | some len, some incs =>
+      match lineGraphR sortNats { edges := s.H.edges, len := len, inc := s.H.nodes.zip incs } k.toNat! with
+      | some g => (s, showNats g.verts ++ " " ++ showNatss (g.edges.map fun p => [p.1, p.2]))
+      | none => (s, "rej")
+    | _, _ => (s, "bad-op")
+  | ["rse", c, k, len, incs] =>
+    match centN c, nat? len, natsss? incs with
+    | some cent, some len, some incs =>
+      (s, showItems showKey (sEdgesR cent sortNats { edges := s.H.edges, len := len, inc := s.H.nodes.zip incs } k.toNat!))
+    | _, _, _ => (s, "bad-op")
   | ["se", c, k] =>
     match centN c with
     | some cent => (s, showItems showKey (sEdges cent sortNats s.H k.toNat!))
